@@ -86,6 +86,7 @@ type Config struct {
 	SelectCost    int   // deviation cost of taking a ready select case other than the first ready one
 	Fair          bool  // fair defaults for busy-wait loops: a select repeated with the same cases and ready set takes the next ready case round-robin by default, and a thread that repeated such a select twice is by default descheduled in favour of another enabled thread (the other choices stay available as deviations)
 	SwitchCost    int   // deviation cost of resuming, when the running thread blocked or exited, a thread other than the lowest-numbered enabled one (0 = free: classical preemption bounding; 1 = delay bounding)
+	UnlockPoints  bool  // opt-in: vsync Unlock/RUnlock are scheduling points too (exposes the window right after a critical section when the following operation, e.g. a context cancel, is not instrumented)
 	Trace         bool
 	Prefix        []int // choices to replay; afterwards default choices
 	AtEnd         func() // called when the execution has ended, before leftover threads are torn down
@@ -616,6 +617,16 @@ func (s *Sched) finishExecution() {
 func Yield(kind string) {
 	s := S
 	if s == nil {
+		return
+	}
+	s.point(&Op{Kind: kind})
+}
+
+// UnlockPoint is called by vsync after a lock was released: a plain scheduling
+// point when Config.UnlockPoints is set, nothing otherwise.
+func UnlockPoint(kind string) {
+	s := S
+	if s == nil || s.aborting || !s.cfg.UnlockPoints || s.cur == nil {
 		return
 	}
 	s.point(&Op{Kind: kind})
